@@ -77,6 +77,11 @@ func (s *Seq) Read(b []byte) (int, error) {
 	for s.cur < s.end {
 		cur := s.Record.position(s.cur)
 		eol := min(s.Record.endOfLineOffset(s.cur), end-int(cur))
+		if eol <= 0 {
+			// The record's geometry does not describe a
+			// sequence: no read can make progress.
+			return n, io.ErrUnexpectedEOF
+		}
 		_n, err := s.r.ReadAt(b[:min(eol, len(b))], cur)
 		s.cur += _n
 		n += _n
